@@ -4,22 +4,31 @@ Explicit-state exploration (E2) of editing histories on the real rich.text.Text
 with the reference model vf/reftext.RefText in lock-step.
 
 state      = (constructor description, event history); the real Text is carried
-             along as a slot-by-slot clone and every stored state is additionally
-             rebuilt by replaying its history on fresh objects (canonical keys must
-             agree, else the machinery aborts with exit 2)
+             along as a slot-by-slot clone and every state that is stored for
+             expansion is additionally rebuilt by replaying its history on fresh
+             objects (canonical keys must agree, else the machinery aborts, exit 2)
 transition = one editing event executed on the real Text AND on the RefText, then
              plain / len() / per-character effective style (text.render(console) ->
-             Segments -> RefStyle.from_rich) are compared
+             Segments -> RefStyle.from_rich) are compared; a violating transition is
+             reported and not extended
 dedup      = canonical key (plain, base style, _length, span list with empty spans
              dropped, tab_size/end/justify/overflow/no_wrap, wild mask of the
              reference); per shard
 strata     = A  every initial state x the FULL event menu (depth 1)
-             B  (thorough) a smaller initial set x FULL x FULL (depth 2)
-             D  hand-picked diverse seeds, CORE menu, BFS to depth 4 (quick) / 5 (thorough),
-                then deterministic chain extensions of the deepest states to depth 12
+             B  a smaller initial set x FULL x FULL (depth 2)
+             D  16 hand-picked diverse seeds, CORE menu, BFS to depth 4 (quick) /
+                5 and 6 (thorough), then deterministic chain extensions of the
+                deepest states up to history length 12
+finding key = <event>/<argument class>/<symptom>; when the text already carried a
+             span with an offset outside the text, the key names the event that
+             stored it: <event>/<argument class>/stores-out-of-range-span
 
-Measured on this machine (unchanged tree, findings below pruned at the violating event):
-quick ~45 s on 16 workers, thorough ~10 min -- see the final report / evidence file.
+Measured (tree with the text.py defects fixed, i.e. nothing pruned; machine shared
+with ~100 runnable processes, so CPU seconds are the meaningful number):
+  quick     2.81 M transitions, 1.08 M states (sum over 88 shards), 378 outcome
+            signatures, 357 CPU-s in total  (= ~25 s wall on 16 free cores)
+  thorough  67.6 M transitions, 26.9 M states (369 shards), 392 signatures,
+            10 650 CPU-s in total (= ~11 min wall on 16 free cores), worker RSS <= 0.7 GB
 """
 import io
 import itertools
@@ -45,8 +54,9 @@ LEVEL_TEXT = ("Every editing event of the menu is executed on the real Text from
               "inside the stated bounds (initial states, event menus, depth); nothing is sampled.")
 LEVEL_NOTE = ("Trusted: CPython (str, re), vf/reftext.py + vf/refstyle.py + vf/width.py (reference, ~450 lines, selftested), "
               "Console.get_style / Style.combine as the reading of a style name (decided by C06). Bounds: strings <= 8 "
-              "characters, initial strings <= 2 (quick) / <= 3 (thorough) over 7 symbols with <= 2 spans, FULL menu of "
-              "~110 events at depth 1 (2 in thorough on a subset), CORE menu of ~24 events to depth 4 / 5, chains to depth 12. "
+              "characters; initial strings <= 2 (quick, + length 3 with <= 1 span) / <= 3 (thorough) over 7 symbols with "
+              "<= 2 spans and 4 constructors; FULL menu of 109 events at depth 1 (depth 2 on a subset); CORE menu of 25 "
+              "events to depth 4 (quick) / 5, and 6 from two seeds (thorough); enumerated chains to history length 12. "
               "Dedup is per shard, so `states` is a sum over shards (an upper bound on distinct states).")
 
 MAXLEN = 8
@@ -565,6 +575,9 @@ def step(t, ref, taint, ev):
             st.key = "%s/stores-out-of-range-span" % taint
             st.detail = "a span with an offset outside the text was stored earlier (%s); now %s %s: %s" % (
                 taint, kind, symptom, detail)
+        elif symptom == "base-style-lost":
+            st.key = "%s/base-style-lost" % kind          # independent of the argument class
+            st.detail = detail
         else:
             st.key = "%s/%s/%s" % (kind, ac, symptom)
             st.detail = detail
